@@ -26,10 +26,10 @@ pub fn def() -> PropDef {
     PropDef {
         id: "C07",
         level: "model_checking",
-        rule: "explicit-state search over {import read-only Ni, import write Ni, local insert Ni, local delete Ni, remote insert Ni (validly signed), reopen the store, list documents, list authors, take a handle with open_replica and keep the document marked open, close_replica} on a file-backed Store (while a document is marked open, write attempts go through one more handle from open_replica), and over the same events plus {open Ni, close Ni, export secret Ni} through the store actor (SyncHandle; reopen = shutdown, reopen the file, respawn), for two documents; model: per document the maximum capability ever imported; after every event list_namespaces kinds, export_secret_key, the outcome of every write attempt and both documents' entries are compared with the model; canonical state = (listed kinds, entries, open handles, exportability); family api: every history of <= 4 (thorough 5) events over {import read-only / write capability, write, delete, close all handles} x two documents through the docs API of a real Engine (DocsApi -> RpcActor -> store actor): write attempts succeed exactly with the greatest capability imported and the listing shows it; non-trivial = histories in which a read-only import or a reopen follows a write import",
+        rule: "explicit-state search over {import read-only Ni, import write Ni, local insert Ni, local delete Ni, remote insert Ni (validly signed), reopen the store, list documents, list authors, take a handle with open_replica and keep the document marked open, close_replica} on a file-backed Store (while a document is marked open, write attempts go through one more handle from open_replica), and over the same events plus {open Ni, close Ni, export secret Ni, drop Ni (removal: the capability history of the document starts again)} through the store actor (SyncHandle; reopen = shutdown, reopen the file, respawn), for two documents; model: per document the maximum capability ever imported; after every event list_namespaces kinds, export_secret_key, the outcome of every write attempt and both documents' entries are compared with the model; canonical state = (listed kinds, entries, open handles, exportability); family api: every history of <= 4 (thorough 5) events over {import read-only / write capability, write, delete, close all handles} x two documents through the docs API of a real Engine (DocsApi -> RpcActor -> store actor): write attempts succeed exactly with the greatest capability imported and the listing shows it; non-trivial = histories in which a read-only import or a reopen follows a write import",
         assumptions: &["two documents, one author, one local key and one remote key per document"],
         bound: |t| match t {
-            Tier::Quick => json!({"direct": "depth <= 7 (11 events)", "actor": "depth <= 6 (17 events)"}),
+            Tier::Quick => json!({"direct": "depth <= 7 (11 events)", "actor": "depth <= 6 (19 events)"}),
             Tier::Thorough => json!({"direct": "depth <= 10", "actor": "depth <= 9"}),
         },
         run,
@@ -53,6 +53,10 @@ pub enum Ev {
     List,
     /// list the authors (same)
     ListAuthors,
+    /// store actor only: `drop_replica` — releases the caller's handle, then removes the document
+    /// iff no handle is left (refused otherwise). A removed document has no capability; what is
+    /// imported afterwards starts from nothing.
+    Drop(u8),
 }
 
 #[derive(Debug, Clone, Copy, PartialEq, Eq, PartialOrd, Ord)]
@@ -402,6 +406,19 @@ fn exec_actor(hist: &[Ev]) -> Option<(Bad, String, String)> {
                     step_bad.push(("close_reports_closed", json!({}), format!("{ev:?}: {res:?} model handles {}", d.handles)));
                 }
             }
+            Ev::Drop(i) => {
+                let res = block_on(h.drop_replica(ns_id(i)));
+                let d = &mut m[i as usize];
+                d.handles = d.handles.saturating_sub(1);
+                let want_ok = d.handles == 0;
+                if want_ok {
+                    *d = Doc::default();
+                }
+                observed = format!("{ev:?}->{}", if res.is_ok() { "Ok" } else { "Err" });
+                if res.is_ok() != want_ok {
+                    step_bad.push(("drop_refused_iff_other_handles", json!({}), format!("{ev:?}: {} with {} other handles", if res.is_ok() { "Ok" } else { "Err" }, d.handles)));
+                }
+            }
             Ev::Insert(i) | Ev::Delete(i) | Ev::Remote(i) => {
                 let ns = ns_id(i);
                 let got: Result<(), String> = match ev {
@@ -568,6 +585,7 @@ fn events(actor: bool) -> Vec<Ev> {
         v.extend([Ev::Open(i), Ev::Close(i)]);
         if actor {
             v.push(Ev::Export(i));
+            v.push(Ev::Drop(i));
         }
     }
     v.push(Ev::Reopen);
